@@ -29,6 +29,11 @@ def r18_1(ctx):
     dumps = [c for c in walk_no_nested(f.node) if is_call_to(c, "dump", "pickle")]
     ok = len(un) == 1 and len(dumps) == 1 and sc.order[un[0]] < sc.order[dumps[0]] and not sc.guards(un[0])
     ctx.check(ok, "Ocp.save un-transcribes before pickling", detail="Opti object (not serialisable) or stale transcription pickled", expected="self._untranscribe(); pickle.dump(...)", found="", fi=f)
+    # every call of save writes the file: no early return, no condition around the dump (what is on disk is the current declaration)
+    early = [r for r in walk_no_nested(f.node) if isinstance(r, ast.Return)]
+    cond = [ast.unparse(t) for d in dumps for t, pol in sc.guards(d)]
+    ctx.check(not early and not cond and bool(dumps), "Ocp.save writes the file on every call", detail="a save is skipped: values or guesses set since the last save (set_value / set_initial do not invalidate anything) are not in the file that load() reads",
+              expected="unconditional pickle.dump", found="; ".join(["return at line %d" % r.lineno for r in early] + ["dump under: " + c for c in cond]), fi=f)
     withs = [w for w in walk_no_nested(f.node) if isinstance(w, ast.With) and any(is_call_to(i.context_expr, "rockit_pickle_context") for i in w.items)]
     ok = len(withs) == 1 and bool(dumps) and sc.within(dumps[0], withs[0])
     ctx.check(ok, "Ocp.save pickles inside rockit_pickle_context()", detail="CasADi objects pickled without the serialisation hook", expected="with rockit_pickle_context(): pickle.dump(self, ...)", found="", fi=f)
@@ -181,3 +186,29 @@ def r18_7(ctx):
                   expected="no parameters; a fresh serializer per call", found="parameters: %s" % f.params, fi=f)
         made = [st for st in f.node.body if isinstance(st, ast.Assign) and isinstance(st.value, ast.Call) and ast.unparse(st.value.func).endswith(cls) and not st.value.args]
         ctx.check(len(made) == 1, "%s creates its serializer on every call" % name, detail="serializer reuse", expected="string_serializer = cs.StringSerializer() in the body", found=str(len(made)), fi=f)
+
+
+@rule("R18.8", min_instances=5, desc="un-transcribing lets go of everything that cannot be pickled, in every stage: Ocp._untranscribe runs the phase-0/1/2 recursers and the placeholder recurser whenever it withdraws the flag, and the recursers reach every method's untranscribe/clean")
+def r18_8(ctx):
+    P = ctx.prog
+    f = P.own_method("Ocp", "_untranscribe")
+    sc = ctx.scope(f)
+    flag = [c for c in walk_no_nested(f.node) if is_call_to(c, "_set_transcribed") and c.args and ast.unparse(c.args[0]) == "False"]
+    if len(flag) != 1:
+        raise AnalysisError("Ocp._untranscribe: expected one withdrawal of the transcribed flag, found %d" % len(flag))
+    fg = sorted((ast.unparse(t), pol) for t, pol in sc.guards(flag[0]))
+    want = [("_untranscribe_recurse", "phase=0"), ("_placeholders_untranscribe_recurse", "1"), ("_untranscribe_recurse", "phase=1"), ("_untranscribe_recurse", "phase=2")]
+    for name, arg in want:
+        cs = [c for c in walk_no_nested(f.node) if is_call_to(c, name, "self") and [ast.unparse(a) for a in c.args] + ["%s=%s" % (k.arg, ast.unparse(k.value)) for k in c.keywords] == [arg]]
+        ok = len(cs) == 1 and sorted((ast.unparse(t), pol) for t, pol in sc.guards(cs[0])) == fg
+        ctx.check(ok, "Ocp._untranscribe runs %s(%s) whenever it withdraws the flag" % (name, arg), detail="a stage's method keeps its Opti-bound objects (advanced view, constraint inspector, ...): save() raises or pickles a stale transcription",
+                  expected="self.%s(%s) under the same condition as the flag withdrawal (%s)" % (name, arg, " and ".join(t for t, _ in fg) or "none"),
+                  found="; ".join("%s if %s" % (ast.unparse(c), " and ".join(ast.unparse(t) for t, _ in sc.guards(c)) or "always") for c in cs) or "not called", fi=f)
+    # the recursers visit the stage itself and every sub-stage
+    g = P.own_method("Stage", "_untranscribe_recurse")
+    own = [c for c in walk_no_nested(g.node) if isinstance(c, ast.Call) and isinstance(c.func, ast.Attribute) and c.func.attr in ("untranscribe", "main_untranscribe") and ast.unparse(c.func.value) == "self._method"]
+    rec = [c for c in walk_no_nested(g.node) if isinstance(c, ast.Call) and isinstance(c.func, ast.Attribute) and c.func.attr == "_untranscribe_recurse"]
+    scg = ctx.scope(g)
+    ok = len(own) >= 1 and len(rec) == 1 and scg.enclosing_loops(rec[0]) and ast.unparse(scg.enclosing_loops(rec[0])[-1][1]) == "self._stages"
+    ctx.check(ok, "Stage._untranscribe_recurse un-transcribes its own method and recurses into every sub-stage", detail="sub-stage methods keep their transcription", expected="self._method.untranscribe(self, ...); for s in self._stages: s._untranscribe_recurse(...)",
+              found="own: %s; recursion: %s" % ([ast.unparse(c)[:50] for c in own], [ast.unparse(c)[:50] for c in rec]), fi=g)
